@@ -247,8 +247,21 @@ class Run:
 
         def process_queued_ops(*a, **k):
             run.ncommit += 1
-            return orig(*a, **k)
+            run.nstmt_cur = 0
+            try:
+                return orig(*a, **k)
+            finally:
+                # observation key 'nstmts': the number of statements of each private-database transaction of the op
+                run.__dict__.setdefault('nstmts', []).append(run.nstmt_cur)
         mgr.process_queued_ops = process_queued_ops
+        dao = mgr.pri_dao
+        if dao is not None:
+            orig_stmt = dao._execute_stmt
+
+            def _execute_stmt(*a, **k):
+                run.nstmt_cur = getattr(run, 'nstmt_cur', 0) + 1
+                return orig_stmt(*a, **k)
+            dao._execute_stmt = _execute_stmt
 
     # -- additive instrumentation for the C07 / C11S / C03 judges (extra observation keys
     #    'adds', 'removed', 'stall_at'; the model does not predict them; behaviour unchanged)
@@ -270,7 +283,9 @@ class Run:
     def _instrument_pool(self, schd):
         run = self
         pool = schd.pool
-        self.adds, self.removed, self.stall_at = [], [], None
+        # (C20, additive: what a scheduler that died in this op had added / removed before it died stays in the
+        # observation of the op; observe() empties the lists after every op, so nothing else changes)
+        self.adds, self.removed, self.stall_at = getattr(self, 'adds', []), getattr(self, 'removed', []), None
         _add, _remove, _stalled = pool.add_to_pool, pool.remove, pool.is_stalled
 
         def add_to_pool(itask, *a, **k):
@@ -445,6 +460,7 @@ class Run:
         # the one it died at, for a crashed main loop); whether the op ended with a crash + restart
         obs['ncommit'] = getattr(self, 'ncommit', 0)
         self.ncommit = 0
+        obs['nstmts'] = self.__dict__.pop('nstmts', [])
         obs['crashed'] = bool(self.__dict__.pop('just_crashed', False))
         self.prepped = []
         self.adds, self.removed, self.stall_at = [], [], None
